@@ -10,7 +10,7 @@ HEADER = ("From Yata Require Import Base.Prelude Base.Num Base.NumF64 Core.Windo
           "Local Existing Instance PW8.\n")
 NAMES = ["SMA", "WMA", "SWMA", "TRIMA", "HMA", "LinReg", "Integral", "Derivative", "Momentum", "RateOfChange",
          "Past", "StDev", "MeanAbsDev", "LinearVolatility", "CCI"]
-PROVED = ["SMA", "WMA", "TRIMA", "HMA", "LinReg", "Conv", "VWMA", "Integral", "Momentum", "Derivative", "RateOfChange",
+PROVED = ["SMA", "WMA", "SWMA", "TRIMA", "HMA", "LinReg", "Conv", "VWMA", "Integral", "Momentum", "Derivative", "RateOfChange",
           "Past", "StDev", "MeanAbsDev", "CCI", "LinearVolatility", "ADI"]
 RULE = ("per method: every boundary length plus random lengths, streams from every regime (walk, plateau, "
         "volatile-flat-volatile, monotone, spikes, alternating, scale jumps, dyadic ties, mixed zeros; scales 2^-60..1e12), "
